@@ -186,7 +186,7 @@ func (i UInt) ExponentiateUInt(other UInt) UInt {
 	}
 	result := i
 	var j UInt
-	for j = 2; j <= other; j++ {
+	for j = 1; j < other; j++ {
 		result *= i
 	}
 	return result
